@@ -8,8 +8,24 @@ def showDec (total : Nat) : Res (Msg × List UInt8) → String
   | .panic => "panic"
   | .oom => "oom"
 
+/-- `!big t n seed nested`: the SPECIFICATION's answer for one large well-formed string reply of type `t` whose
+    payload is byte i = (7*i + seed) mod 251, followed by `:42` (inside `*2` when nested): the value is exactly the
+    payload, the next reply is untouched. Digest: typ, length, weighted byte sum mod 2^32, second integer, bytes of
+    the first frame. -/
+def bigSum (n seed : Nat) : Nat :=
+  (List.range n).foldl (fun acc i => (acc + (i + 1) * ((7 * i + seed) % 251)) % 4294967296) 0
+
+def bigAnswer (t n seed nested : Nat) : String :=
+  let hdr := 1 + (toString n).length + 2
+  let frame := (if nested == 1 then 4 else 0) + hdr + n + 2 + (if nested == 1 then 5 else 0)
+  s!"ok {t} {n} {bigSum n seed} 42 {frame}"
+
 def step (_ : Unit) (ws : List String) : Unit × String :=
   match ws with
+  | ["!big", t, n, seed, nested] =>
+    match t.toNat?, n.toNat?, seed.toNat?, nested.toNat? with
+    | some t, some n, some sd, some ne => ((), bigAnswer t n sd ne)
+    | _, _, _, _ => ((), "bad-op")
   | [op, sz, h] =>
     if op == "dec" || op == "!dec" then
       match sz.toNat?, Hex.decode h with
